@@ -136,3 +136,38 @@ def rt_dictionary(d):
     size = len(s.data)
     back = r.read_dictionary()
     return (back, list(back.items()), s.pos, size)
+
+
+class AnyStream:
+    """An arbitrary byte stream: `left` bytes remain (ghost counter); each read(1) yields the next (unconstrained) byte.
+    The engine replaces `read` by its contract (specs/tzio_models.install_any_stream)."""
+
+    def __init__(self, left):
+        self.left = left
+
+    def read(self, n=-1):  # pragma: no cover - modelled
+        raise NotImplementedError
+
+
+def reader_on(stream, pool=None):
+    from pyoda_time.time_zones.io._date_time_zone_reader import _DateTimeZoneReader
+
+    return _DateTimeZoneReader._ctor(stream, pool)
+
+
+def read_prim(stream, which):
+    r = reader_on(stream)
+    before = stream.left
+    if which == 0:
+        v = r.read_count()
+    elif which == 1:
+        v = r.read_signed_count()
+    elif which == 2:
+        v = r.read_milliseconds()
+    elif which == 3:
+        v = r.read_byte()
+    elif which == 4:
+        v = r._DateTimeZoneReader__read_int64()
+    else:
+        v = r.has_more_data
+    return (v, before - stream.left)
